@@ -110,6 +110,7 @@ package core
 // Identifier by enum name: the result is a function of the name (protoByName / actionByName).
 //@ func NewProtocolIDFromString(id) (p, err)
 //@   pure-result protoByName
+//@   pure-verdict protoNameOK
 //@   ensures[base] err == nil ==> okProto(p) && p > 0
 
 //@ func NewActionIDFromString(id) (a, err)
